@@ -159,8 +159,9 @@ def comment_tokens(text):
         for tok in tokenize.generate_tokens(io.StringIO('(' + text + '\n)').readline):
             if tok.type == tokenize.COMMENT:
                 out.append(tok.string)
-    except (tokenize.TokenError, IndentationError, SyntaxError) as e:
-        raise ParseError(repr(e))
+    except (tokenize.TokenError, IndentationError, SyntaxError, UnicodeDecodeError) as e:
+        # UnicodeDecodeError: CPython 3.12's tokenizer on a raw carriage return before a non-ASCII character
+        raise ParseError('cannot be tokenised: ' + repr(e))
     return out
 
 
